@@ -1976,3 +1976,58 @@ def rule_promoteidem(ctx) -> RuleResult:
                        f"for {tname} the arm '{norm(test)[:60]}' executes '{changed[:50]}': the dtype already holds NaN / NaT and must come back unchanged; the re-index in the "
                        "tail of groupby_reduce (after the final cast) then returns another dtype for cohorts / blockwise than for the eager and map-reduce plans")
     return res
+
+
+# ---------------------------------------------------------------------------------------------
+# R-REINDEXSKIP (C16, C05): the finalizer's re-index onto the requested labels is skipped only when the found labels EQUAL them, in order.
+# reindex_(values, from_=found, to=expected) fills absent labels, drops unrequested ones -- and re-orders.  "Nothing to fill, nothing to drop"
+# (same number of labels, all of them requested) is a statement about SETS; when the found labels are a permutation of the requested ones the
+# values stay in found order under the requested labels.  Any extra condition on the path to that call must be an order-sensitive equality
+# (Index.equals / np.array_equal / identity), never a membership or length test.
+def rule_reindexskip(ctx) -> RuleResult:
+    res = RuleResult("R-REINDEXSKIP", "the finalizer skips its re-index only for labels that are equal in order, not merely as sets", min_instances=1)
+    from ..astutil import guard_facts
+    from .codes import _local_closure
+    f = ctx.prog.func("core._finalize_results")
+    pm = parents_map(f.node)
+    n = 0
+    for c in calls_in(f.node):
+        if norm(c.func) != "reindex_":
+            continue
+        n += 1
+        # every leaf of every enclosing test (conjunctions AND disjunctions: `if not complete or <other>:` skips the call when `complete`)
+        leaves = []
+        cur = c
+        for a in ancestors(c, pm):
+            if isinstance(a, ast.If) and any(cur is b or any(cur is y for y in ast.walk(b)) for b in a.body + a.orelse):
+                work = [a.test]
+                while work:
+                    e = work.pop()
+                    if isinstance(e, ast.BoolOp):
+                        work.extend(e.values)
+                    elif isinstance(e, ast.UnaryOp) and isinstance(e.op, ast.Not):
+                        work.append(e.operand)
+                    else:
+                        leaves.append(e)
+            if a is f.node:
+                break
+        extra = [(norm(e), True) for e in leaves if "blockwise" not in norm(e) and "is None" not in norm(e) and "is not None" not in norm(e)]
+        bad = []
+        for at, pol in extra:
+            e = ast.parse(at, mode="eval").body
+            clo = _local_closure(f, e)
+            txt = " ".join(norm(x) for x in clo)
+            setlike = any(k in txt for k in (".isin(", "np.isin(", "len(", "set(", ".difference(", ".issubset(", "np.in1d(", ".size"))
+            ordered = any(k in txt for k in (".equals(", "np.array_equal(", ".identical("))
+            if setlike and not ordered:
+                bad.append(at)
+        res.inst(f"_finalize_results: '{norm(c)[:50]}' extra conditions on the path: {[a for a, _ in extra] or '-'}; set-like: {bad or '-'}", f"reindex|{c.lineno}")
+        for at in bad:
+            res.report(f"core._finalize_results|reindex-skipped-on-set-equality|{at[:30]}", f.where(c), f.qualname,
+                       f"the re-index onto the requested labels is skipped depending on '{at[:60]}', a membership / length test: found labels that are a permutation of the "
+                       "requested ones (sort=False, expected_groups in another order than first appearance) pass it, and the values then stay in found order "
+                       "under the requested labels")
+    if n == 0:
+        res.notes.append("_finalize_results no longer re-indexes: rule not applicable")
+        res.min_instances = 0
+    return res
